@@ -226,7 +226,7 @@ class C09(BaseCheck):
         f = rng.stream(run_seed, 'faults')
         k = rng.stream(run_seed, 'knobs')
         roll = k.random()
-        case = {'cold': k.random() < 0.03, 'api': k.choice(['str', 'str', 'bytes']), 'single': k.random() < 0.5,
+        case = {'cold': k.random() < 0.03, 'api': k.choice(['str', 'str', 'bytes', 'bytes-latin1']), 'single': k.random() < 0.5,
                 'stdout_fault': None, 'ops': []}
         # configuration knobs: the pint-backed Quantity mode (the pinned suite runs everything in both
         # modes) and a host application that promotes warnings to errors
@@ -266,7 +266,7 @@ class C09(BaseCheck):
                 deliveries.append({'text': ''.join(r.choice(alphabet) for _ in range(r.choice([1, 2, 3, 5, 9]))),
                                    'faults': ['garbage'], 'must_reject': None})
         else:
-            maxr = 2 if k.random() < 0.9 else 3
+            maxr = 2 if k.random() < 0.9 else k.choice([3, 3, 12])
             d = zincpeer.gen_doc(r, max_cols=k.choice([1, 2, 3]), max_rows=maxr)
             case['ver'] = d.ver
             if roll < 0.30:
@@ -331,20 +331,27 @@ class C09(BaseCheck):
         hs = self.hszinc
         CLOCK.start(budget)
         arg = text
-        if case.get('api') == 'bytes' and case['class'] != 'scalar':
+        kw = {}
+        if case.get('api') == 'bytes':
             try:
                 arg = text.encode('utf-8')
             except UnicodeEncodeError:
                 arg = text      # lone surrogates cannot travel as UTF-8 bytes
+        elif case.get('api') == 'bytes-latin1':
+            try:
+                arg = text.encode('latin-1')
+                kw = {'charset': 'latin-1'}
+            except UnicodeEncodeError:
+                arg = text      # not representable in that charset: delivered as text
         res = {'outcome': None}
         signal.setitimer(signal.ITIMER_REAL, 60.0)
         try:
             if case['class'] == 'scalar':
-                v = hs.parse_scalar(text, mode=hs.MODE_ZINC, version=case['ver'])
+                v = hs.parse_scalar(arg, mode=hs.MODE_ZINC, version=case['ver'], **kw)
                 res['outcome'] = 'value'
                 res['repr'] = type(v).__name__
             else:
-                g = hs.parse(arg, mode=hs.MODE_ZINC, single=case.get('single', True))
+                g = hs.parse(arg, mode=hs.MODE_ZINC, single=case.get('single', True), **kw)
                 res['outcome'] = 'grid'
                 res['repr'] = 'None' if g is None else (len(g) if isinstance(g, list) and not isinstance(g, hs.Grid) else 1)
         except ClockExpired:
